@@ -171,7 +171,7 @@ def run_history(sim, hseed, res, thorough=False):
         op = None
         try:
             if k < 0.45 or not sim.model:
-                run = rng.choice([1, 2, 3, 4, 5, 9])
+                run = rng.choice([1, 2, 3, 4, 5, 9, 10, 11, 12, 40, 99, 100, 101, 1000])  # widths differ: keys are strings
                 a = schema.algs[(tk, an)]
                 contents = {(svn, vn): dbsim.payload(rng, sim.next_uid('c08')) for svn, s in a['svs'].items() for vn in s['vals']}
                 op = ['update', tk, an, tg, run]
